@@ -314,9 +314,15 @@ DedupOnceFirst ==
 \* a collection that claims uniqueness never enumerates a key twice
 UniqueClaimSound == UniqB(tree) => ~HasDup(Flat(tree))
 
+\* the calls at which the breaking visitor is tried: all of them for small collections, a
+\* few for the large ones (the harness tries every n either way; the expected number of
+\* calls, min(n, length), needs no more from TLC)
+BreakNs(len) ==
+    IF len <= 16 THEN 1..(len + 1) ELSE {1, 2, len \div 2, len - 1, len, len + 1}
+
 \* enumeration stops as soon as the visitor asks it to
 BreakStops ==
-    \A n \in 1..(Len(Flat(tree)) + 1) :
+    \A n \in BreakNs(Len(Flat(tree))) :
         LET r == FE(tree, 0, n)
         IN /\ Len(r.vis) = (IF n <= Len(Flat(tree)) THEN n ELSE Len(Flat(tree)))
            /\ r.brk = (n <= Len(Flat(tree)))
